@@ -9,9 +9,9 @@ import (
 	"fmt"
 	"testing"
 
-	math "github.com/IBM/mathlib"
 	"github.com/IBM/TSS/mpc/bls"
 	"github.com/IBM/TSS/mpc/ps"
+	math "github.com/IBM/mathlib"
 
 	"verif/core/kit"
 	"verif/core/sim"
